@@ -4,7 +4,7 @@
 From Coq Require Import NArith List Bool.
 Import ListNotations.
 From CXV Require Import Gen.TokTy Parse.Balanced Parse.BalancedThms Parse.Declarator Parse.DeclSpec Parse.DeclThms Parse.DeclPins.
-From CXV Require Import Parse.EnumList Parse.Specs Parse.VarStmt Parse.FnTail Parse.Init Parse.Members.
+From CXV Require Import Parse.EnumList Parse.Specs Parse.VarStmt Parse.FnTail Parse.Init Parse.Members Parse.Template.
 From CXV Require Import Parse.Fold Parse.FoldThms Parse.FoldPlace.
 Open Scope N_scope.
 
@@ -105,6 +105,15 @@ Theorem function_statement_decodes_partial : forall rt ps va n th ne nep en rest
      (DOk (n, rt, ps, va, tail_of th ne en, rest)).
 Proof. exact fn_stmt_roundtrip. Qed.
 
+(* Template headers: `< p1, ..., pn >` reports every parameter once, in order,
+   with its kind (type / template template / non-type), key (class or typename),
+   pack flag, name, default (exactly the tokens written) and, for a template
+   template parameter, its own parameter list -- to any nesting depth; the
+   non-type parameters are declarators of any legal type. *)
+Theorem template_parameters_decode_partial : forall l R,
+  Forall tp_ok l -> ev (fun f => tdecl f (tlist_toks l ++ R)) (DOk (l, R)).
+Proof. exact template_params_roundtrip. Qed.
+
 (* An enumerator list `{ A, B = expr, C }` (a trailing ',' allowed): every
    enumerator is reported once, in order, with exactly the tokens of its value
    (any token-level expression: brackets nested, '<' '>' free), for lists of any
@@ -137,6 +146,7 @@ Print Assumptions variable_statement_with_initialisers_decodes_partial.
 Print Assumptions typedef_statement_decodes_partial.
 Print Assumptions function_declaration_decodes_partial.
 Print Assumptions function_statement_decodes_partial.
+Print Assumptions template_parameters_decode_partial.
 Print Assumptions enumerators_reported_exactly_partial.
 Print Assumptions items_land_where_written.
 
